@@ -11,10 +11,60 @@ package cloudprovider
 //@   ensures [onlyAvailable] forall k int {result[k]} :: (0 <= k && k < len(result)) ==> (result[k].Available && c6in(result[k], ofs))
 //@   ensures [allAvailable] forall j int {ofs[j]} :: (0 <= j && j < len(ofs) && ofs[j].Available) ==> c6in(ofs[j], result)
 
-//@ func (Offerings).Cheapest
+// c6ofsOK: every offering is non-nil with a well-formed requirement set (precondition of IsCompatible, C12).
+//@ pure c6ofsOK(ofs Offerings) bool = forall j int {ofs[j]} :: (0 <= j && j < len(ofs)) ==> (ofs[j] != nil && scheduling.rsInv(ofs[j].Requirements))
+// c6hasCompat: some offering of ofs is compatible with reqs (compat: C19's name for IsCompatible under AllowUndefinedWellKnownLabels).
+//@ pure c6hasCompat(ofs Offerings, reqs scheduling.Requirements) bool = exists j int {ofs[j]} :: 0 <= j && j < len(ofs) && compat(reqs, ofs[j])
+// c6launchable: instance type it has an AVAILABLE offering compatible with reqs.
+//@ pure c6launchable(it *InstanceType, reqs scheduling.Requirements) bool = exists j int {it.Offerings[j]} :: 0 <= j && j < len(it.Offerings) && elig(reqs, it.Offerings[j])
+
+// HasCompatible: exact. (As in the C19 comparator contract, that IsCompatible is a function of its operands is the
+// listed assumption [deterministic]; what "compatible" means is the C12 contract of Compatible.)
+//@ func (Offerings).HasCompatible
+//@   prop C06
+//@   requires [wf] c6ofsOK(ofs) && scheduling.rsInv(reqs)
+//@   modifies nothing
+//@   after (Requirements).IsCompatible assume [deterministic] $r0 == scheduling.compatWK($0, $1)
+//@   site (Requirements).IsCompatible requires [args] $0 == reqs && $1 == of.Requirements
+//@   ensures [exact] result <==> c6hasCompat(ofs, reqs)
+//@   loop 1 invariant forall j int {ofs[j]} :: (0 <= j && j <= $i) ==> !compat(reqs, ofs[j])
+
+// Offerings.Compatible: only offerings of the receiver are returned (the exact filter predicate cannot be stated
+// with the stock lo.Filter stub: its closure calls a function under contract; see pending/).
+//@ func (Offerings).Compatible
 //@   prop C06
 //@   modifies nothing
-//@   ensures [empty] len(ofs) == 0 ==> result == nil
-//@   ensures [member] len(ofs) > 0 ==> c6in(result, ofs)
-//@   ensures [min] forall j int {ofs[j]} :: (0 <= j && j < len(ofs)) ==> result.Price <= ofs[j].Price
+//@   ensures [nothingAdded] forall k int {result[k]} :: (0 <= k && k < len(result)) ==> c6in(result[k], ofs)
 
+// InstanceTypes.Compatible keeps exactly... at least: only instance types of the receiver, each with an available
+// offering compatible with the requirements.
+//@ func (InstanceTypes).Compatible
+//@   prop C06
+//@   requires [wf] itsOK(its) && scheduling.rsInv(requirements)
+//@   modifies nothing
+//@   ensures [nothingAdded] forall k int {result[k]} :: (0 <= k && k < len(result)) ==> (exists j int {its[j]} :: 0 <= j && j < len(its) && its[j] == result[k])
+//@   ensures [launchable] forall k int {result[k]} :: (0 <= k && k < len(result)) ==> c6launchable(result[k], requirements)
+//@   ensures [allLaunchable] forall j int {its[j]} :: (0 <= j && j < len(its) && c6launchable(its[j], requirements)) ==> (exists k int {result[k]} :: 0 <= k && k < len(result) && result[k] == its[j])
+//@   ensures [own] cap(result) == 0 || fresh(result)
+//@   ensures [wfKept] itsOK(result) && (c6itsReqOK(its) ==> c6itsReqOK(result))
+//@   loop 1 invariant [own] cap(filteredInstanceTypes) == 0 || fresh(filteredInstanceTypes)
+//@   loop 1 invariant [nothingAdded] forall k int {filteredInstanceTypes[k]} :: (0 <= k && k < len(filteredInstanceTypes)) ==> (exists j int {its[j]} :: 0 <= j && j <= $i && its[j] == filteredInstanceTypes[k])
+//@   loop 1 invariant [launchable] forall k int {filteredInstanceTypes[k]} :: (0 <= k && k < len(filteredInstanceTypes)) ==> c6launchable(filteredInstanceTypes[k], requirements)
+//@   loop 1 invariant [allLaunchable] forall j int {its[j]} :: (0 <= j && j <= $i && c6launchable(its[j], requirements)) ==> (exists k int {filteredInstanceTypes[k]} :: 0 <= k && k < len(filteredInstanceTypes) && filteredInstanceTypes[k] == its[j])
+
+// c6itsReqOK: the instance types' own requirement sets are well-formed (precondition of the C12 contract of Requirements.Get).
+//@ pure c6itsReqOK(its InstanceTypes) bool = forall j int {its[j]} :: (0 <= j && j < len(its)) ==> (its[j] != nil && scheduling.rsInv(its[j].Requirements))
+
+// Frame only (C06 needs to know that validating the minValues floors does not touch the catalog or the
+// NodeClaim). The functional contract of this function belongs to C13 (draft in /verif/drafts/C13/blocked).
+//@ func (InstanceTypes).SatisfiesMinValues
+//@   prop C06
+//@   requires [inv] scheduling.rsInv(requirements)
+//@   requires [its] c6itsReqOK(its)
+//@   modifies nothing
+//@   loop 1 invariant [own] fresh(valuesForKey) && fresh(incompatibleKeys) && valuesForKey != nil && incompatibleKeys != nil
+//@   loop 1 invariant [vk] forall x string {x in valuesForKey} :: (x in valuesForKey) ==> (valuesForKey[x] != nil && fresh(valuesForKey[x]))
+//@   loop 2 invariant [own] fresh(valuesForKey) && fresh(incompatibleKeys) && valuesForKey != nil && incompatibleKeys != nil
+//@   loop 2 invariant [vk] forall x string {x in valuesForKey} :: (x in valuesForKey) ==> (valuesForKey[x] != nil && fresh(valuesForKey[x]))
+//@   loop 3 invariant [own] fresh(valuesForKey) && fresh(incompatibleKeys) && valuesForKey != nil && incompatibleKeys != nil
+//@   loop 3 invariant [vk] forall x string {x in valuesForKey} :: (x in valuesForKey) ==> (valuesForKey[x] != nil && fresh(valuesForKey[x]))
